@@ -204,6 +204,7 @@ static Plan makePlan(const Case& c)
   if (inSet(k, {K_MIGRATE, K_MIGMULTI, K_MIGLOC, K_MIGATT, K_INVDIST})) p.inGrid = c.inGrid != 0;
   if (inSet(k, {K_KRIMAGE, K_MORPHO, K_SMOOTH})) { p.neighType = 2; if (p.ndim == 1) p.ndim = 2; }
   if (k == K_G2GSHRINK) p.ndim = 3;
+  if (k == K_SIMFFT && p.ndim == 1) p.ndim = 2; // the 1-D dilation search of simfft does not terminate in reasonable time
   p.ndimOut = (k == K_G2GSHRINK) ? 2 : p.ndim;
   // number of variables
   if (inSet(k, {K_KRIBAYES, K_KRIGDGM, K_SIMFFT, K_SIMBAYES, K_R2GNAME, K_NSCORE, K_G2RNAME, K_R2FACTOR, K_INVDIST, K_NEAREST, K_MOVAVE,
